@@ -85,7 +85,8 @@ def positionalise_keywords(prog: Program, res) -> int:
                     else:
                         ok = False
             written = [i for i, _k in moved]
-            if written != sorted(written) and not all(_pure(k.value) for _i, k in moved):
+            # reordering is unobservable when at most one of the moved argument expressions does anything (the others commute with it)
+            if written != sorted(written) and sum(1 for _i, k in moved if not _pure(k.value)) > 1:
                 ok = False
             if not ok:
                 continue
